@@ -247,6 +247,15 @@ class Program:
                 b[a.asname or a.name] = Binding("from", module=target, name=a.name, stmt=st)
         elif isinstance(st, ast.Assign):
             for t in st.targets:
+                if isinstance(t, (ast.Tuple, ast.List)) and all(isinstance(e, ast.Name) for e in t.elts):
+                    # A, B = x, y   /   A, B = range(2): each name is bound to its component
+                    same = isinstance(st.value, (ast.Tuple, ast.List)) and len(st.value.elts) == len(t.elts) \
+                        and not any(isinstance(e, ast.Starred) for e in st.value.elts)
+                    for i, e in enumerate(t.elts):
+                        comp = st.value.elts[i] if same else ast.copy_location(
+                            ast.Subscript(value=st.value, slice=ast.Constant(i), ctx=ast.Load()), st.value)
+                        ast.fix_missing_locations(comp)
+                        b[e.id] = Binding("assign", comp, stmt=st)      # type: ignore[attr-defined]
                 if isinstance(t, ast.Name):
                     b[t.id] = Binding("assign", st.value, stmt=st)
                     if t.id == "__all__":
